@@ -9,7 +9,8 @@ PROFILES = ["debug", "release"]
 CORR_IMPORT = "From Coq Require Import Uint63.\nFrom RlibV Require Import C09.Model C09.Corr.\nOpen Scope Z_scope."
 CASE_TYPE = "case"
 AUDIT_IMPORT = ("From Coq Require Import ZArith List Bool.\nImport ListNotations.\n"
-                "From RlibV Require Import C09.Model C09.Spec C09.Properties.\nOpen Scope Z_scope.")
+                # Corr before Spec: unqualified join / flush_points in the pins are Spec.v's
+                "From RlibV Require Import C09.Model C09.Corr C09.Spec C09.Properties.\nOpen Scope Z_scope.")
 EXPLAIN = "explain"
 AXIOM_ALLOW = []
 SHARD = 600
@@ -52,6 +53,16 @@ THEOREMS = [
      "Forall (fun p => in_range (fst p) (snd p) = true) vs -> "
      "exists text, run BUF dbg [OWrite (VVec (int_values vs))] = Some (text, []) "
      "/\\ parse_ints text = Some (map snd vs)"),
+    # in_scope c = (39 <=? c_buf c) && executor_verdicts (c_obs c)   (Corr.v)
+    ("c09_model_check_spec_check",
+     "forall c : case, in_scope c = true -> model_check c = true -> spec_check c = true"),
+    ("c09_model_check_spec_check_any_capacity",
+     "forall c : case, c_obs c <> Panic -> executor_verdicts (c_obs c) = true -> "
+     "model_check c = true -> spec_check c = true"),
+    ("c09_run_some_delivers",
+     "forall (BUF : Z) (dbg : bool) (ops : list op) (r : list byte * list Z), "
+     "Forall wf_op ops -> run BUF dbg ops = Some r -> r = (rendering ops, Spec.flush_points ops 0)"),
+    ("c09_sdec_is_dec", "forall v : Z, sdec v = dec v"),
 ]
 
 RULE = ("scripts of write / write_char / flush / out! / outln! over all 12 integer types (every type's MIN, MAX, 0, +-1, "
@@ -244,7 +255,7 @@ def coq_term(c, obs, profile):
         if irregular(data) > 40000:
             return "(Case %d %s [%s] (TooLong %d))" % (BUF[0], "true" if profile == "debug" else "false",
                                                        "; ".join(op_term(x) for x in c["ops"]), len(data))
-        o = "(Ret %s [%s] %s %s)" % (segs(data), ";".join(z(x) for x in fl), "true" if same else "false",
+        o = "(Ret (expand %s) [%s] %s %s)" % (segs(data), ";".join(z(x) for x in fl), "true" if same else "false",
                                      "None" if rb is None else "(Some %s)" % ("true" if rb else "false"))
     return "(Case %d %s [%s] %s)" % (BUF[0], "true" if profile == "debug" else "false",
                                       "; ".join(op_term(x) for x in c["ops"]), o)
@@ -637,7 +648,7 @@ def extra(ctx, known):
 
 
 MANIFEST = {
-    "text": "Theorems (Coq, no axioms, 9 pinned) about an executable Gallina model of rlib_io::Writer (state = pending "
+    "text": "Theorems (Coq, no axioms, 13 pinned) about an executable Gallina model of rlib_io::Writer (state = pending "
             "buffer + sink; reserve/flush/write_bytes, string chunking, the backwards digit loop into a BASE_10_LEN "
             "buffer, '-' + unsigned_abs, Vec/tuple separators, out!/outln!, debug flush after every write, drop) "
             "parametric in BUF_SIZE and the build flavour: c09_invariant (after ANY script of well-formed writes, both "
@@ -651,7 +662,15 @@ MANIFEST = {
             "text of any integer vector parses back to the values with a reader that accumulates digits as Reader does). "
             "The model is tied to the code on every run: scripted writes through the public API into sinks that accept "
             "1..k bytes per call and return Interrupted, on a debug and a release executor; Coq checks model = received "
-            "bytes and received bytes = independent rendering (Z.to_int) for every case.",
+            "bytes and received bytes = independent rendering (Z.to_int) for every case. The second check is also a "
+            "theorem: c09_model_check_spec_check (for every case whose reported BUF_SIZE is >= 39 and whose two "
+            "executor-side verdicts -- same bytes as to_string, Reader read the integers back -- are positive, "
+            "model_check = true implies spec_check = true: bytes, flush points, no panic on a script of the property's "
+            "quantifier; nothing assumed about the script), so the model batch carries the specification to the "
+            "implementation by proof; c09_model_check_spec_check_any_capacity (same for non-panic observations at any "
+            "BUF_SIZE), built on c09_sdec_is_dec (the digit loop's numeral = the standard library's Z.to_int numeral, "
+            "every integer) and c09_run_some_delivers (partial correctness at EVERY capacity: if the model does not "
+            "panic it delivers exactly the renderings and flush points).",
     "level_note": "Trusted: Coq kernel + vm_compute; executor and case printer; write_all/chunks/unsigned_abs of std as "
                   "oracles with their documented contracts; BUF_SIZE is exercised at the crate's value only; the "
                   "correspondence is sampled.",
